@@ -100,14 +100,16 @@ PROPS = {
                        "both or in neither; identical bytes before verbatim tokens; GapEqW (a gap's emptiness matters only between a "
                        "literal/unknown token and a token that can keep its spacing, and before the end-of-file token); same line-break "
                        "flags behind the first asm keyword; every token written by a first-phase solution of the wrapper (fails exactly on "
-                       "lines without a solution: F34); every free token behind a trailing line comment starts a line. The premise is "
+                       "lines without a solution: F34); every free token behind a trailing line comment starts a line - a theorem for every token a "
+                       "solution writes (search_breaks_where_it_must, C06_format_full_checked' with the equivalent premise layoutPremisesB'), "
+                       "checked only for verbatim and end-of-file tokens. The premise is "
                        "evaluated on every pair of the relayout stream (full2, info_c06: holds on about 98 %; info_c06thm: the two model "
                        "outputs are equal whenever it holds). By construction: the parser model reads line breaks only behind an asm "
                        "keyword (parseFileMasked), the search reads tokens through FTok.sview and the configuration through "
                        "Config.searchCfg, and token_lengths masks the spaces of free tokens; a relational proof (RelW) carries two related "
                        "states through the whole wrapper stage. Plus: whitespace reduced to counters, spacing invariance theorems, the "
                        "layout-reads translator obligation, and the relayout oracle on the real code.",
-        "assumptions": ["layoutPremisesB (decidable, evaluated per pair); the model is tied to the code by the full, full2, pfull and wsearch correspondences"],
+        "assumptions": ["layoutPremisesB' (decidable, evaluated per pair); the model is tied to the code by the full, full2, pfull and wsearch correspondences"],
     },
     "C11": {
         "level": "other",
@@ -230,12 +232,13 @@ PROPS = {
         "explanation": "recon_crlf_subst: for fixed counters the crlf rendering is the lf rendering with terminators substituted "
                        "(tokens emitted verbatim must be line-break free: info_nn); emitted_breaks_are_nl; fmtdata_crlf. "
                        "C09_format_full_crlf_config: for the closed model of the whole formatter (search inside) the crlf run is the lf run "
-                       "with every terminator substituted, under three decidable side conditions computed from the lf run (crlfOk: literals "
-                       "end in a quote; both runs rewrite the same literals; nothing emitted verbatim holds a line break) - the search reads "
+                       "with every terminator substituted, under two decidable side conditions computed from the lf run (crlfOk23: both runs "
+                       "rewrite the same literals; nothing emitted verbatim holds a line break; the former third one - literals end in a "
+                       "quote - is proved: C09_crlfOk_of_23) - the search reads "
                        "the configuration through Config.searchCfg (no line ending in it) and tokens through FTok.sview (kind, last-line "
-                       "length) by construction; the driver tallies crlfOk on every case of the full stream (info_c09). The third clause "
+                       "length) by construction; the driver tallies crlfOk23 on every case of the full stream (info_c09). The third clause "
                        "(LF vs CRLF input) is decided by the c09 oracle.",
-        "assumptions": ["crlfOk (decidable, tallied per case); input-ending clause: metamorphic oracle, not a theorem"],
+        "assumptions": ["crlfOk23 (decidable, tallied per case); input-ending clause: metamorphic oracle, not a theorem"],
     },
     "C10": {
         "level": "proof",
